@@ -11,8 +11,10 @@ import (
 	"math/rand"
 	"os"
 	"path/filepath"
+	"runtime"
 	"sort"
 	"sync"
+	"sync/atomic"
 
 	"github.com/pinealctx/neptune/cache"
 	"github.com/pinealctx/neptune/cache/tiny"
@@ -361,6 +363,114 @@ func runConc(w *tr.W, rng *rand.Rand, sized bool, threads, opsPer int) {
 	w.Emit(tr.E{"ev": "final", "obs": l.obs()})
 }
 
+// race rounds: a fresh cache, `threads` goroutines released together, each issuing a short burst
+// of operations on one or two hot keys.  Only rounds in which at least two calls really overlapped
+// in the log are kept (a round without overlap is a sequential history, covered elsewhere); dropping
+// rounds can only lose coverage.  Returns (rounds run, rounds kept).
+func runRaces(w *tr.W, rng *rand.Rand, rounds, keep int) (int, int) {
+	kept, ran := 0, 0
+	ops := []string{"setnx", "set", "setx", "del", "get", "setnx", "set"}
+	for r := 0; r < rounds && kept < keep; r++ {
+		ran++
+		sized := r%2 == 0
+		threads := 2 + r%2
+		capa := 1 + rng.Intn(3)
+		l := newLRU(sized, capa, 0)
+		progs := make([][]act, threads)
+		if r%2 == 0 {
+			// structured pair: every method against every mutator on the same key, on an absent or a
+			// present key (atomicity of each single method)
+			all := []string{"setnx", "set", "setx", "del", "get", "peek", "exist"}
+			mut := []string{"set", "setx", "del", "setnx"}
+			c := r / 2
+			a, b, pre := all[c%len(all)], mut[(c/len(all))%len(mut)], (c/(len(all)*len(mut)))%2 == 1
+			threads = 2
+			progs = progs[:2]
+			if pre {
+				safeDo(l, act{Op: "set", K: 1, V: 7, S: 1})
+			}
+			progs[0] = []act{{Op: a, K: 1, V: 100, S: 1}}
+			progs[1] = []act{{Op: b, K: 1, V: 200, S: 1}}
+			if pre {
+				// the prefill is part of the recorded history
+				progs[0] = append([]act{}, progs[0]...)
+			}
+			_ = pre
+		} else {
+			for t := range progs {
+				n := 1 + rng.Intn(2)
+				for i := 0; i < n; i++ {
+					progs[t] = append(progs[t], act{Op: ops[rng.Intn(len(ops))], K: 1 + rng.Intn(10)/8, V: 100*(t+1) + i, S: 1})
+				}
+			}
+		}
+		prefilled := r%2 == 0 && ((r/2)/(7*4))%2 == 1
+		// lock-free log: a global atomic sequence number is drawn before a call starts and after it
+		// returned, so the merged order is consistent with real time; goroutines are released by a
+		// spin barrier so that they really run in parallel.
+		type sev struct {
+			seq int64
+			e   tr.E
+		}
+		per := make([][]sev, threads)
+		var seq int64
+		var goFlag, readyCnt int32
+		var wg sync.WaitGroup
+		for t := 0; t < threads; t++ {
+			wg.Add(1)
+			go func(t int) {
+				defer wg.Done()
+				atomic.AddInt32(&readyCnt, 1)
+				for atomic.LoadInt32(&goFlag) == 0 {
+				}
+				for _, a := range progs[t] {
+					per[t] = append(per[t], sev{atomic.AddInt64(&seq, 1), tr.E{"ev": "inv", "t": t + 1, "a": a.rec()}})
+					r := safeDo(l, a)
+					per[t] = append(per[t], sev{atomic.AddInt64(&seq, 1), tr.E{"ev": "res", "t": t + 1, "r": r}})
+				}
+			}(t)
+		}
+		for atomic.LoadInt32(&readyCnt) < int32(threads) {
+			runtime.Gosched()
+		}
+		atomic.StoreInt32(&goFlag, 1)
+		wg.Wait()
+		var all []sev
+		for _, p := range per {
+			all = append(all, p...)
+		}
+		sort.Slice(all, func(i, j int) bool { return all[i].seq < all[j].seq })
+		evs := make([]tr.E, 0, len(all))
+		for _, x := range all {
+			evs = append(evs, x.e)
+		}
+		open, overlap := 0, false
+		for _, e := range evs {
+			if e["ev"] == "inv" {
+				open++
+				if open > 1 {
+					overlap = true
+				}
+			} else {
+				open--
+			}
+		}
+		if !overlap {
+			continue
+		}
+		kept++
+		w.Emit(tr.E{"ev": "reset", "cap": capa, "sized": sized, "threads": threads, "src": "race", "keykind": 0})
+		if prefilled {
+			w.Emit(tr.E{"ev": "callr", "a": act{Op: "set", K: 1, V: 7, S: 1}.rec(), "r": 0})
+		}
+		for _, e := range evs {
+			w.Emit(e)
+		}
+		w.Emit(tr.E{"ev": "final", "obs": l.obs()})
+	}
+	return ran, kept
+}
+
 // wide variants: only the facade (Get/Peek/Exist/Set/Delete) is public.  The harness routes
 // every event to the trace of the shard that remap (public, checked in C17) assigns to the
 // key; each shard must behave as an LRU of capacity cap/shards+1.
@@ -496,6 +606,8 @@ func main() {
 	nconc := flag.Int("nconc", 60, "concurrent histories")
 	nwide := flag.Int("nwide", 40, "wide histories")
 	maxops := flag.Int("maxops", 80, "max ops per history")
+	nrace := flag.Int("nrace", 60000, "race rounds to run")
+	nracekeep := flag.Int("nracekeep", 4000, "race rounds (with real overlap) to keep")
 	flag.Parse()
 	rng := rand.New(rand.NewSource(*seed))
 
@@ -535,6 +647,7 @@ func main() {
 	for i := 0; i < *nconc; i++ {
 		runConc(cw, rng, i%2 == 0, 3, 4+i%3)
 	}
+	ran, kept := runRaces(cw, rng, *nrace, *nracekeep)
 	cw.Close()
-	fmt.Printf("seq_events=%d conc_events=%d\n", w.N(), cw.N())
+	fmt.Printf("seq_events=%d conc_events=%d race_rounds=%d race_rounds_with_overlap=%d\n", w.N(), cw.N(), ran, kept)
 }
